@@ -929,7 +929,7 @@ func FpFromInt(a *Term, signed bool) *Term {
 
 // ---- SMT printing: each term is defined once as a global define-fun
 
-func smtName(n string) string { return "|" + n + "|" }
+func smtName(n string) string { return "|v." + n + "|" }
 
 func (t *Term) ref() string {
 	switch t.op {
